@@ -192,4 +192,55 @@ PROPS = {
         trusted=["crate bitvec / core as compiled"],
         assumptions=["fragments consistent with the image (coded fragment k = XOR selected by row k)"],
     ),
+    "C19": dict(
+        modules=["Fuota.Props.C19"],
+        suites=[dict(name="d8s", cfg="naive", driver_args=["--naive"]),
+                dict(name="d8c", cfg="naive", driver_args=["--naive"]),
+                dict(name="d8s", cfg="naive-ffr", driver_args=["--naive", "--ffr"], thorough_only=True),
+                # the back-end agnostic D5 generators on the naive back-end (correspondence only: their oracles belong
+                # to other properties): malformed indices / crafted flash, clean reboots, torn-program crash sweep
+                dict(name="d5m", cfg="naive", driver_args=["--naive"], thorough_only=True, search_thorough=False),
+                dict(name="d5r", cfg="naive", driver_args=["--naive"], thorough_only=True, search_thorough=False),
+                dict(name="d5w", cfg="naive", driver_args=["--naive"], thorough_only=True, search_thorough=False)],
+        rule="d8s: whole sessions (image, geometry, loss pattern, delivery order, duplicates, optional clean reboot) fed "
+             "fragment by fragment to BOTH crates (naive Updater of flash-algo-new built without matrixreconstructor, "
+             "ActiveStatus of original-flash-algo) and to both Lean models; one evaluation = one API call answered with "
+             "outcome, complete flash-operation log and counters; d8c: the naive back-end with a power loss at every "
+             "mutating-operation boundary of start / fragments (incl. repair writes) / check, then reboot, recovery, "
+             "continuation, final check; the oracle (harness) is an independent peeling decoder over TS004 rows: "
+             "expected completion point, exact set and contents of the fragments each call may program, no program on "
+             "a duplicate, exact image, same completion point in both crates; distinct = distinct query text per cfg",
+        trusted=["crate bitvec / core as compiled", "TS004 matrix_line transcription in harness/src/d8.rs (oracle rows)"],
+        assumptions=["received fragments are genuine (data fragments of the image, coded fragments = XOR of the rows)",
+                     "crash-free runs for the peeling clauses; operation-boundary power loss (no torn program) for the "
+                     "resume clause",
+                     "the theorems marked _partial are about the mask-level machine; the flash-level refinement is "
+                     "checked by this correspondence suite, not proved"],
+    ),
+    "C20": dict(
+        modules=["Fuota.Props.C20"],
+        suites=[dict(name="d8r", cfg="matrix")],
+        rule="every consistent ring state for N = 3..6 (rotation x fill x 8 start values incl. those around 2^32-1) x "
+             "status variants: `start` (placement / numbering / other slots untouched oracle), `bl_boot_status`, "
+             "`app_boot_status` (resume-exactly-the-newest-pair / nothing else left in progress oracle), power loss at "
+             "every mutating-operation boundary of `start` followed by the boot-time calls, and fragment indices swept "
+             "over the accepted range for 7 (fragment size, slot size) pairs with the in-slot oracle; one evaluation = "
+             "one API call of original-flash-algo answered by the crate and by the Lean model (outcome, operation log, "
+             "session fields, header words and region digests)",
+        trusted=["crate bitvec / core as compiled"],
+        assumptions=["consistent ring states (the property's quantifier); headers whose geometry fits the slot"],
+    ),
+    "C04": dict(
+        modules=["Fuota.Props.C04"],
+        suites=[dict(name="d5w", cfg="matrix", keys=["res", "ops", "bad", "s0", "s1", "s2", "s3", "s4", "s5"])],
+        rule="per generated session: power loss before / during (torn: byte prefix and partially programmed byte) "
+             "mutating operation k of operation j, for start, fragments (incl. back-substitution), the final mark, and "
+             "then inside the bootloader / application marks, recovery (remediation), cancel-all and a start-over; after "
+             "the reboot: validation sweep of every slot that reads as completed firmware (and comparison with the "
+             "transmitted image for the session's slot), try_recover, bl_boot_status (designated slot must validate), "
+             "fallback_firmware, start_update, sweep again; every call under catch_unwind",
+        trusted=["crate bitvec / core as compiled"],
+        assumptions=["erase is atomic per erase block; a torn program clears a byte prefix plus any subset of the bits "
+                     "of one more byte", "erase-block size >= 28 bytes (header in the first block)"],
+    ),
 }
